@@ -313,98 +313,168 @@ func contains(xs []string, x string) bool {
 }
 
 // instantiate adds ground instances of the asserted-positive quantifiers in
-// roots at the index terms of the goal (skolem constants and select indices,
-// and their neighbours). The quantified formulas stay in place; the instances
-// only help the solvers.
+// roots (E-matching in miniature): a quantifier whose body reads array A at its
+// bound variable is instantiated at every index at which A is read in the
+// ground part of the VC (two rounds, so that chains of frame axioms connect),
+// plus the skolem constants of the goal. The quantified formulas stay in place;
+// the instances only help the solvers.
 func instantiate(roots []*Term, target *Term) []*Term {
-	// quantifier nodes
-	var quants []*Term
-	seen := map[int]bool{}
-	var findQ func(t *Term)
-	findQ = func(t *Term) {
-		if seen[t.id] {
-			return
-		}
-		seen[t.id] = true
-		if (t.op == "forall") && instQuant[t.id] {
-			quants = append(quants, t)
-		}
-		for _, a := range t.args {
-			findQ(a)
-		}
+	type qinfo struct {
+		q        *Term
+		root     *Term
+		triggers map[int]bool // array term ids selected at the bound variable
 	}
+	var qs []qinfo
 	for _, r := range roots {
-		findQ(r)
-	}
-	if len(quants) == 0 {
-		return nil
-	}
-	// candidate terms by sort
-	cands := map[string][]*Term{}
-	have := map[int]bool{}
-	add := func(t *Term) {
-		if have[t.id] || hasBound(t) || len(cands[t.sort]) >= 10 {
-			return
-		}
-		have[t.id] = true
-		cands[t.sort] = append(cands[t.sort], t)
-	}
-	seen2 := map[int]bool{}
-	var collect func(t *Term)
-	collect = func(t *Term) {
-		if seen2[t.id] {
-			return
-		}
-		seen2[t.id] = true
-		if t.leaf && !boundVars[t.id] && (strings.HasPrefix(t.op, "q.") || strings.HasPrefix(t.op, "seq.k") || strings.HasPrefix(t.op, "frame.k")) {
-			add(t)
-		}
-		if t.op == "select" && !t.args[1].lit {
-			add(t.args[1])
-		}
-		if t.op == "forall" || t.op == "exists" {
-			return
-		}
-		for _, a := range t.args {
-			collect(a)
-		}
-	}
-	collect(target)
-	// neighbours for integer indices
-	for _, t := range append([]*Term(nil), cands[SBV(64)]...) {
-		add(BVSub(t, BV(1, 64)))
-		add(BVAdd(t, BV(1, 64)))
-	}
-	var out []*Term
-	for _, r := range roots {
-		var qs []*Term
-		s3 := map[int]bool{}
-		var inR func(t *Term)
-		inR = func(t *Term) {
-			if s3[t.id] {
+		seen := map[int]bool{}
+		var find func(t *Term)
+		find = func(t *Term) {
+			if seen[t.id] {
 				return
 			}
-			s3[t.id] = true
+			seen[t.id] = true
 			if t.op == "forall" && instQuant[t.id] {
-				qs = append(qs, t)
+				qi := qinfo{q: t, root: r, triggers: map[int]bool{}}
+				bv := t.args[0]
+				s2 := map[int]bool{}
+				var trig func(x *Term)
+				trig = func(x *Term) {
+					if s2[x.id] {
+						return
+					}
+					s2[x.id] = true
+					if x.op == "select" && mentions(x.args[1], bv) {
+						qi.triggers[x.args[0].id] = true
+					}
+					for _, a := range x.args {
+						trig(a)
+					}
+				}
+				trig(t.args[1])
+				qs = append(qs, qi)
 				return
 			}
 			for _, a := range t.args {
-				inR(a)
+				find(a)
 			}
 		}
-		inR(r)
-		for _, q := range qs {
-			for _, c := range cands[q.args[0].sort] {
-				body := Replace(q.args[1], q.args[0], c, map[int]*Term{})
-				inst := Replace(r, q, body, map[int]*Term{})
-				if inst != r {
-					out = append(out, inst)
+		find(r)
+	}
+	if len(qs) == 0 {
+		return nil
+	}
+	// skolem constants of the goal, by sort
+	skolems := map[string][]*Term{}
+	{
+		seen := map[int]bool{}
+		var col func(t *Term)
+		col = func(t *Term) {
+			if seen[t.id] {
+				return
+			}
+			seen[t.id] = true
+			if t.leaf && !boundVars[t.id] && (strings.HasPrefix(t.op, "q.") || strings.HasPrefix(t.op, "seq.k") || strings.HasPrefix(t.op, "frame.k")) {
+				skolems[t.sort] = append(skolems[t.sort], t)
+			}
+			if t.op == "forall" || t.op == "exists" {
+				return
+			}
+			for _, a := range t.args {
+				col(a)
+			}
+		}
+		col(target)
+	}
+	var out []*Term
+	done := map[string]bool{}
+	// goal-directed: round 1 matches against the goal, later rounds against the
+	// instances produced so far
+	ground := []*Term{target}
+	for round := 0; round < 3; round++ {
+		// index terms per array id in the ground part
+		reads := map[int][]*Term{}
+		seen := map[int]bool{}
+		var col func(t *Term)
+		col = func(t *Term) {
+			if seen[t.id] {
+				return
+			}
+			seen[t.id] = true
+			if t.op == "forall" || t.op == "exists" {
+				return
+			}
+			if t.op == "select" && !hasBound(t.args[1]) {
+				// a read of ite(c, A, B) or store(A, ...) is a read of A (and B)
+				for _, aid := range arrayLeaves(t.args[0], map[int]bool{}) {
+					reads[aid] = append(reads[aid], t.args[1])
+				}
+			}
+			for _, a := range t.args {
+				col(a)
+			}
+		}
+		for _, g := range ground {
+			col(g)
+		}
+		var added []*Term
+		for _, qi := range qs {
+			cands := map[int]*Term{}
+			for _, sk := range skolems[qi.q.args[0].sort] {
+				cands[sk.id] = sk
+				if sk.sort == SBV(64) {
+					m1, p1 := BVSub(sk, BV(1, 64)), BVAdd(sk, BV(1, 64))
+					cands[m1.id], cands[p1.id] = m1, p1
+				}
+			}
+			for aid := range qi.triggers {
+				for _, ix := range reads[aid] {
+					if ix.sort == qi.q.args[0].sort {
+						cands[ix.id] = ix
+					}
+				}
+			}
+			n := 0
+			var cl []*Term
+			for _, c := range cands {
+				cl = append(cl, c)
+			}
+			sort.Slice(cl, func(i, j int) bool { return cl[i].id < cl[j].id })
+			for _, c := range cl {
+				if n >= 64 {
+					break
+				}
+				key := fmt.Sprintf("%d/%d/%d", qi.root.id, qi.q.id, c.id)
+				if done[key] {
+					continue
+				}
+				done[key] = true
+				n++
+				body := Replace(qi.q.args[1], qi.q.args[0], c, map[int]*Term{})
+				inst := Replace(qi.root, qi.q, body, map[int]*Term{})
+				if inst != qi.root {
+					added = append(added, inst)
 				}
 			}
 		}
+		out = append(out, added...)
+		ground = added
+		if len(added) == 0 {
+			break
+		}
 	}
 	return out
+}
+
+func mentions(t, v *Term) bool {
+	if t == v {
+		return true
+	}
+	for _, a := range t.args {
+		if mentions(a, v) {
+			return true
+		}
+	}
+	return false
 }
 
 var hasQuantMemo = map[int]bool{}
@@ -421,4 +491,20 @@ func hasQuant(t *Term) bool {
 	}
 	hasQuantMemo[t.id] = r
 	return r
+}
+
+func arrayLeaves(a *Term, seen map[int]bool) []int {
+	if seen[a.id] {
+		return nil
+	}
+	seen[a.id] = true
+	out := []int{a.id}
+	switch a.op {
+	case "ite":
+		out = append(out, arrayLeaves(a.args[1], seen)...)
+		out = append(out, arrayLeaves(a.args[2], seen)...)
+	case "store":
+		out = append(out, arrayLeaves(a.args[0], seen)...)
+	}
+	return out
 }
